@@ -720,10 +720,38 @@ def translate_switches(fl_dir: str) -> tuple[str, list[TranslationError]]:
         vals["is_ready_disjunction_nested"] = any(x is disj[0] for x in ast.walk(conj[0]))
     except TranslationError as e:
         errors.append(e)
-    out = ["(* GENERATED by tools/translate.py from rule.py / engine.py — do not edit. *)\n"]
+    out = ["(* GENERATED by tools/translate.py from rule.py / engine.py / activation.py — do not edit. *)\n",
+           "Require Import Coq.Strings.String Coq.Lists.List.\nImport ListNotations.\nOpen Scope string_scope.\n"]
     for k in ("consequent_modify_carries_degree", "antecedent_final_check_on_stack", "is_ready_disjunction_nested"):
         if k in vals:
             out.append(f"Definition {k} : bool := {str(vals[k]).lower()}.\n")
+    # Threshold.Comparator: (member, symbol, operator function) from the enum body and its __operator__ table
+    try:
+        tree = ast.parse(open(os.path.join(fl_dir, "activation.py")).read())
+        th = next(n for n in tree.body if isinstance(n, ast.ClassDef) and n.name == "Threshold")
+        comp = next(n for n in th.body if isinstance(n, ast.ClassDef) and n.name == "Comparator")
+        members = {}
+        table = None
+        for st in comp.body:
+            if isinstance(st, ast.Assign) and isinstance(st.targets[0], ast.Name) and isinstance(st.value, ast.Constant) and isinstance(st.value.value, str):
+                members[st.targets[0].id] = st.value.value
+            if isinstance(st, ast.AnnAssign) and isinstance(st.target, ast.Name) and st.target.id == "__operator__" and isinstance(st.value, ast.Dict):
+                table = st.value
+        if table is None or not members:
+            raise TranslationError("activation.py:Threshold.Comparator", "members or __operator__ table not recognised")
+        rows = []
+        for k, v in zip(table.keys, table.values):
+            if not (isinstance(k, ast.Name) and k.id in members and isinstance(v, ast.Attribute) and isinstance(v.value, ast.Name) and v.value.id == "operator"):
+                raise TranslationError("activation.py:Threshold.Comparator", "unexpected __operator__ entry " + ast.unparse(k))
+            rows.append((k.id, members[k.id], v.attr))
+        if sorted(r[0] for r in rows) != sorted(members):
+            raise TranslationError("activation.py:Threshold.Comparator", "__operator__ does not cover every member")
+        out.append("(* Threshold.Comparator: member, symbol, function of the `operator` module *)\n")
+        out.append("Definition threshold_comparators : list (string * string * string) := [" + "; ".join(f'("{a}", "{b}", "{c}")' for a, b, c in rows) + "].\n")
+    except StopIteration:
+        errors.append(TranslationError("activation.py:Threshold.Comparator", "class not found"))
+    except TranslationError as e:
+        errors.append(e)
     return "".join(out), errors
 
 
